@@ -1,5 +1,6 @@
 import TantivyModel.Proofs.Columnar.Mapping
 import TantivyModel.Proofs.Columnar.Range
+import TantivyModel.Proofs.Columnar.Header
 import TantivyModel.Proofs.Columnar.Stack
 import TantivyModel.Proofs.Columnar.OptionalIndex
 /-!
@@ -67,6 +68,16 @@ column of u64 values and every row -/
 theorem C08_bitpacked_exact (vals : List Nat) (hv : ∀ v ∈ vals, v < 2 ^ 64) (i : Nat) (hi : i < vals.length) :
     bitpackedGet (collectStats vals) (bitpackedPayload (collectStats vals) vals) i = vals[i] :=
   bitpacked_exact vals hv i hi
+
+/-- a whole bitpacked column through its real byte layout — codec byte, VInt-encoded stats header
+(min, gcd, amplitude/gcd, rows), bit-packed payload: `load(serialize(vals)) = vals` for every
+column of at most `u32::MAX` u64 values (includes the VInt and header round trips) -/
+theorem C08_bitpacked_column_roundtrip (vals : List Nat) (hv : ∀ v ∈ vals, v < 2 ^ 64)
+    (hlen : vals.length < 2 ^ 32) :
+    decodeU64Column (0 :: bitpackedEnc vals) = some vals :=
+  bitpacked_column_roundtrip vals hv hlen
+
+example : (0 :: bitpackedEnc [10, 20, 40]) = [0, 0x8a, 0x8a, 0x83, 0x83, 0x34] := by decide
 
 /-- linear codec, in `BitVec 64`: exact for every column, every row and *every* estimation line
 (whatever `Line::train` returns): the stored offset is `deviationᵢ − min_deviation`, which lies
